@@ -34,6 +34,39 @@ T = {
  "C20": (True, "exploration", "runtime monitoring: invariant assertions after every TuiState::update (catch_unwind, overflow checks on) over generated frame sequences of all 38 frame types with hostile seq/timestamp/text, determinism by double fold and clone-then-suffix, render sweep on TestBackend, and the real rip headless renderers driven by a fake authority",
    "Thousands of frame scripts per run (gaps, repeats, decreasing and extreme seqs, several streams, multi-byte text at every truncation boundary, all capacity settings), millions of lookup probes (returned frame must carry the asked seq), hundreds of thousands of renders incl. every terminal size 1..130 x 1..30, and ~150 real CLI runs compared across chunkings.",
    "Bounds judged are the configured ones (max_frames, max_output_bytes, 8 KiB previews); Miri pass is thorough-tier only and small."),
+ "C02": (True, "exploration", "runtime monitoring: byte-prefix monitor on events.jsonl after every call of sequential histories through the real router/store (old bytes must be an exact prefix, suffix whole JSON lines, must-add-nothing classes add zero bytes), with fuzzed parameters, cache faults and restarts; second observer: the real rip serve under strace (thorough tier)",
+   "~27 000 judged calls per quick run over every route and store capability incl. fuzzed read-only parameters, malformed ids/bodies, 4xx rejections, dry-run/noop answers, cache deletion followed by rebuilding reads, restarts; asynchronous writers are awaited before the next call is blamed; strace observer asserts O_APPEND-only opens and no rename/unlink/truncate on the log.",
+   "Sequential histories; the byte oracle cannot see a same-bytes same-inode rewrite (only the strace observer can)."),
+ "C03": (True, "exploration", "runtime monitoring: (A) table-driven round-trip oracle over all 38 frame variants with unique tokens (wire==read(wire), stream assignment, no token lost at write or read, envelope keys), also through EventLog append/replay and snapshots; (B) live collectors vs log vs sidecar vs snapshot vs replay_events frame-for-frame on concurrent histories",
+   "~25 000 generated frames per quick run (optional fields absent/present/null, unicode incl. astral and U+2028, 64 KiB strings, deep and extreme JSON values) and ~3 000 streams compared live==log==sidecar==snapshot==thread SSE replay incl. restarts and verify_snapshot.",
+   "Floats restricted to exactly representable values; payload nesting limited to what the system can emit (100 levels)."),
+ "C06": (True, "fault_enumeration", "runtime monitoring: driven rendezvous schedules at the emit/stream hook points enumerate every placement of a subscriber's subscribe/snapshot steps against every frame emission of sessions, tasks and threads; received SSE bytes judged against the log (0..n exactly once, in order, JSON-equal); plus stress with 1-32 subscribers under noise and a >16 384-frame burst",
+   "All join orders x all frames k of several producer variants for the three stream kinds (hundreds of driven joins per quick run, all realised), ~5 000 stress subscribers, lag burst; unrealised schedules and undelivered tails are inconclusive, never violations.",
+   "In-process router (no socket buffering); tokio mutex FIFO order assumed for positions reached under the history lock."),
+ "C07": (True, "exploration", "runtime monitoring: offline lifecycle-grammar oracle over the final event log of routed runs against a scripted provider (every provider fault incl. reset at every byte, HTTP errors, malformed/invalid events, missing [DONE]) and tool outcomes, parallel posts, interleaved compaction jobs, seeded hook delays",
+   "4-6 000 runs per quick run in ~65 behaviour classes: exactly one run_spawned per accepted post, exactly one run_ended after the run's own session_ended, decided < compiled < side-effects/cursor < ended, session stream starts at seq 0 and ends with exactly one session_ended, jobs ended at most once; a run without closing frames is a violation only when provably nothing is in flight.",
+   "Judges the log only; stuck-run verdict relies on generous time bounds (otherwise inconclusive)."),
+ "C08": (True, "exploration", "runtime monitoring: reference-model oracle (raw-log recomputation of cut point, eligible checkpoints, halving hierarchy, <=16 recent messages with reply texts) against the real compile entry point on enumerated boundary layouts and random histories, plus metamorphic re-compiles under other cache states, after appends beyond the cut, without snapshots, and racing with appenders",
+   "~2 800 compiles per quick run over 12 directed layouts (15/16/17 messages, checkpoint at/after/beyond the cut, equal to_seq, 1-4 halving levels, dense side effects, real routed runs with output) and random ones; each anchor compiled under 4 cache/snapshot states and compared with the model and with each other.",
+   "Model follows context_bundle.md/ADR-0010/ADR-0018 as implemented; known finding: checkpoint frames appended after the cut are still selected."),
+ "C11": (True, "exploration", "runtime monitoring: in-flight counter invariant at ws.exec.begin/end hook points (harness-side classification of tools), black-box BEGIN/END marks written by instrumented shell commands, and an offline oracle over side-effects frames (exactly one per mutating tool call, after tool end, before run end, order equals real order), under seeded holds that widen overlap windows",
+   "400 scenarios per quick run with 2-8 parallel sessions (envelopes and scripted-provider tool loops) and 0-4 tasks mixing mutating and read-only tools: mutating in flight never exceeds 1, read-only overlap is actually observed, mark intervals disjoint, side-effects frames ordered like the mutations.",
+   "Overlap observed at hook granularity and shell marks; affected_paths judged for write/apply_patch only."),
+ "C12": (True, "exploration", "runtime monitoring: whole-tree before/after oracle (fixture::tree_bytes) around Workspace::apply_patch and the apply_patch tool: after==before on error, after==reference applier result and changed_files==named set on success of constructively generated patches; failing op planted at every index",
+   "~35-48 000 patch applications per quick run on generated workspaces (LF/CRLF, final newline or not, empty, binary, nested) with 1-6 ops, 21 kinds of failing op at every position, document-level mutations and induced ENOTDIR/EISDIR/ENAMETOOLONG.",
+   "Exactness asserted only inside the constructive domain (hunks cut from the real file); no permission faults (runs as root)."),
+ "C13": (True, "fault_enumeration", "runtime monitoring: sentinel-tree manifest and canary information-flow monitors around every path-taking operation, each run in a child process per working directory; enumeration of argument position x path grammar x cwd; strace file-syscall monitor in thorough tier",
+   "Full product of 23 argument positions x ~95 path strings (absolute, '..' in every position, separators, '.', empty, long, unicode, NUL) x 5 working directories within the quick budget: nothing outside the root created/modified/deleted/read, escaping paths refused with the whole root (incl. .rip) unchanged.",
+   "Path grammar is restricted to strings that cannot resolve to files the harness does not own; symlink escapes out of scope."),
+ "C14": (True, "exploration", "runtime monitoring: model-based oracle (per checkpoint: covered path -> bytes or absent) on real trees after every step of seeded edit/checkpoint/rewind histories run in a child process per working directory, through Workspace, ToolRunner and the router; auto-checkpoint coverage and order checked on frames",
+   "15-26 000 judged steps per quick run: rewind restores exactly the covered files from any later state (write, patch add/update/move/delete, delete, mkdir), failed rewinds leave the tree identical, every editing tool run is preceded by an automatic checkpoint covering every path it changed, cwd equal to or different from the root.",
+   "ToolRunner-level driver mirrors ripd's private checkpoint hook; the real hook is exercised through the router."),
+ "C16": (True, "exploration", "runtime monitoring: oracle over the request bodies recorded by a scripted provider (each call answered exactly once, by call id, in output order, in the next request; bodies pass the repo's own request validation; stateless input is prefix-extending) and over tool effects in the workspace (unique tokens appended at most once; barred tools leave no token)",
+   "2-3 000 conversations per quick run: 1-6 turns, calls via added/delta/done in shuffled/interleaved order, missing ids, duplicate call ids, repeated done, no [DONE], 13 tool_choice settings, both history modes, endless tool requests (bounded at 32), invalid requests never sent.",
+   "Execution of effect-free tools is judged through frames and answers only."),
+ "C17": (True, "exploration", "runtime monitoring: ground-truth oracle with the harness itself as child process (rv emit writes known bytes with chosen write sizes/pauses/exit code): task frame grammar on SSE and log views, stored bytes == truth prefix up to the cap, delta ranges consecutive, page walks reproduce stored output, shell-tool previews/artifacts (id == sha256) judged against the truth",
+   "~2 600-3 500 task and shell runs per quick run: sizes around preview limit/8192/8193/artifact cap, ASCII/multi-byte/binary content split across writes, caps and limits incl. 0, cancel at random delays and at hook hits, random (offset,max_bytes) page sequences.",
+   "PTY mode excluded (not runnable in this sandbox); pipe chunking is influenced, not controlled."),
 }
 NOT_BUILT_REASON = "monitor not built yet in this round (work in progress; see DESIGN.md section 3 for the design)"
 
